@@ -245,6 +245,9 @@ func verifStepDataRace(prefix string) {
 	_ = &mu
 	s := NewCallableSchema(verifSignalStep(&initCount, &seen, &sigCalls, nil))
 	ctx := context.Background()
+	if verifTier() > 0 {
+		verifSchedBound(2) // thorough: every pair of preemptions
+	}
 	twoRuns := nondetBool("twoRuns")
 	var wg sync.WaitGroup
 	wg.Add(3)
